@@ -2595,17 +2595,19 @@ class Recipe:
                         flows["in"] += (sum(map(helper, step.to[1].contents.items())) -
                                         sum(map(helper, step.to[0].contents.items())))
                 if isinstance(step.to[0], Plate) and step.to[0].name == container.name:
+                    vfunc = np.vectorize(plate_helper, otypes=[float])
                     if step.trash:
-                        flows["out"] += sum(map(helper, step.trash.items()))
+                        # what was discarded, well by well
+                        flows["out"] += np.maximum(vfunc(step.to[0].wells) - vfunc(step.to[1].wells), 0)
                     else:
-                        vfunc = np.vectorize(plate_helper)
-                        flows["in"] += vfunc(step.to[1].wells) - vfunc(step.to[0].wells)
+                        # a plate can be source and destination of the same step: only gains are inflow
+                        flows["in"] += np.maximum(vfunc(step.to[1].wells) - vfunc(step.to[0].wells), 0)
                 if isinstance(step.frm[0], Container) and step.frm[0].name == container.name:
                     flows["out"] += (sum(map(helper, step.frm[0].contents.items())) -
                                      sum(map(helper, step.frm[1].contents.items())))
                 if isinstance(step.frm[0], Plate) and step.frm[0].name == container.name:
-                    vfunc = np.vectorize(plate_helper)
-                    flows["out"] += vfunc(step.frm[0].wells) - vfunc(step.frm[1].wells)
+                    vfunc = np.vectorize(plate_helper, otypes=[float])
+                    flows["out"] += np.maximum(vfunc(step.frm[0].wells) - vfunc(step.frm[1].wells), 0)
         precision = config.precisions[unit] if unit in config.precisions else config.precisions['default']
         for key in flows:
             flows[key] = np.round(flows[key], precision)
